@@ -235,8 +235,13 @@ def r11c(ctx, run):
             ech = fn.chain_operand(b.args[4], depth=10)
             t, e = show_chain(tch, 4), show_chain(ech, 4)
             # nil arm = the element found by `find(|ty| ty == Ty::Nil)`; payload arm = arm_blocks[(nil_idx == 0) as usize]
-            nil_is_else = FA.chain_has_call(ech, "find") and not FA.chain_has_call(tch, "find")
-            some_is_then = FA.chain_has_call(tch, "index") and any(n.get("kind") == "bin" and n["op"] == "Eq" for n in walk_chain(tch))
+            def top_call(ch):
+                while ch.get("kind") in ("place", "ref", "cast"):
+                    ch = ch.get("base") or ch.get("of")
+                return ch if ch.get("kind") == "call" else {}
+            tt, et = top_call(tch), top_call(ech)
+            nil_is_else = short(et.get("callee", "")) in ("expect", "unwrap") and FA.chain_has_call(et, "find")
+            some_is_then = short(tt.get("callee", "")) == "index" and any(n.get("kind") == "bin" and n["op"] == "Eq" for n in walk_chain(tt["args"][1] if tt else {}))
             okb = cc == "NotEqual" and zero and nil_is_else and some_is_then
             run.check(okb, b.site(), "nullable pointer: brif(icmp_imm(NotEqual, v, 0), some, nil)", FC, "nullable-dispatch", b.file, b.ln,
                       "nullable-pointer switch must branch to the payload arm when the pointer != 0 and to the nil arm otherwise (cc=%s then=%s else=%s)" % (cc, t[:40], e[:40]))
